@@ -239,7 +239,7 @@ func c10R3(r *Report) {
 		incompleteAt := func(b *ssa.BasicBlock, viaEdgeFrom *ssa.BasicBlock) bool {
 			gs := guardsOf(b)
 			if viaEdgeFrom != nil {
-				gs = append(gs, edgeGuard(viaEdgeFrom, b)...)
+				gs = expandGuards(append(gs, edgeGuard(viaEdgeFrom, b)...))
 			}
 			for _, g := range gs {
 				g = g.norm()
@@ -267,7 +267,7 @@ func c10R3(r *Report) {
 				// the value is itself tested false on the way to this edge (`if want && Complete(i) { want = false }`:
 				// the edge that skips the Complete test is the one on which want is false)
 				knownFalse := false
-				for _, g := range append(append([]Guard{}, guardsOf(pb)...), edgeGuard(pb, x.Block())...) {
+				for _, g := range guardsOnEdge(pb, x.Block()) {
 					g = g.norm()
 					if g.Cond == e && !g.Pol {
 						knownFalse = true
